@@ -507,7 +507,10 @@ fn fmt_values(r: &mut Rng, n: usize, count: usize) -> Vec<B> {
         }
     }
     // a digit equal to 10^9 / 10^4 / 10^2 / 10 (the decimal chunk bases of u64/u32/u16/u8 digits) above other digits
-    for (g, base) in [(8usize, 1_000_000_000u64), (4, 10_000), (2, 100), (1, 10)] {
+    // ... and, whatever the digit type, the largest power of ten that fits a whole 8/16/32/64/128-bit limb (10^2, 10^4,
+    // 10^9, 10^19, 10^38): a rewrite of the decimal conversion that works on limbs of another size ties there
+    for (g, base) in [(8usize, 1_000_000_000u128), (4, 10_000), (2, 100), (1, 10),
+                      (16, 100_000_000_000_000_000_000_000_000_000_000_000_000u128), (8, 10_000_000_000_000_000_000), (4, 1_000_000_000), (2, 10_000), (1, 100)] {
         if 2 * g <= n {
             let k = 1 + r.below((n / g - 1) as u64) as usize;
             let mut x = gen::random(r, n);
